@@ -34,6 +34,8 @@ def marked_text(g, marks):
                 meta.append("nops")
             if m["nopse"]:
                 meta.append("nopse")
+            if m.get("dynamic"):
+                meta.append("dynamic")    # no meaning for the STATIC table (only for a dynamic filter): Resolve.tla does not know it
         by[lhs].append((" ".join(rhs) if rhs else "EMPTY") + ((" {%s}" % ", ".join(meta)) if meta else ""))
     s = "".join("%s: %s;\n" % (lhs, " | ".join(by[lhs])) for lhs in order)
     s += "terminals\n" + "".join('%s: "%s";\n' % (n, p) for n, _, p in g["terms"])
@@ -68,7 +70,7 @@ def worker(job):
             # productions of the loaded grammar in text order: S' first, then the rules in the order written
             want = {}
             for (lhs, rhs), m in zip(job["g"]["prods"], job["marks"]):
-                want[(lhs, tuple(rhs))] = m or DEFAULT
+                want[(lhs, tuple(rhs))] = {k: v for k, v in (m or DEFAULT).items() if k != "dynamic"}
             for p in prods:
                 attrs.append(dict(want.get((p["lhs"], tuple(p["rhs"])), DEFAULT)))
         out.append({"name": name, "origin": job["origin"], "built": True, "err": "", "gtext": text, "kind": job["kind"], "prods": prods, "attrs": attrs,
@@ -99,6 +101,8 @@ def _jobs(tier, seed):
                     m = {"prio": 10, "assoc": "none", "nops": r.random() < 0.5, "nopse": r.random() < 0.5}
                 else:
                     m = {"prio": r.choice([5, 10, 10, 15]), "assoc": r.choice(["none", "left", "right"]), "nops": r.random() < 0.25, "nopse": r.random() < 0.25}
+                if r.random() < 0.3:
+                    m["dynamic"] = True
                 marks.append(m if m != DEFAULT else None)
             jobs.append({"kind": "marks", "g": g, "marks": marks, "origin": "det" if i % 4 else "rand",
                          "name": "marks " + marked_text(g, marks).split("terminals")[0].replace("\n", " ").strip()})
